@@ -60,7 +60,7 @@ var triggers = []trigger{
 		id: "KF-W2", props: wmProps,
 		match: func(c *core.Case, f *features, class string, v *core.Verdict) bool {
 			vv := c.Cfg.V
-			return vv >= mach.MVP4 && vv <= mach.MVP63 && isMismatch(class) && f.tConflict.explains(v)
+			return vv >= mach.MVP4 && vv <= mach.MVP63 && isMismatch(class) && f.tConflict.explainsClass(class, v)
 		},
 	},
 	{
@@ -80,7 +80,7 @@ var triggers = []trigger{
 				// expectation of the branch unit: the older branch never redirects
 				return true
 			}
-			if vv < mach.MVP61 || f.takenBranches == 0 || !isMismatch(class) || !f.tShadow.explains(v) {
+			if vv < mach.MVP61 || f.takenBranches == 0 || !isMismatch(class) || !f.tShadow.explainsClass(class, v) {
 				return false
 			}
 			if vv <= mach.MVP62 {
@@ -97,7 +97,7 @@ var triggers = []trigger{
 		// that register and what is computed from it.
 		id: "KF-W4", props: wmProps,
 		match: func(c *core.Case, f *features, class string, v *core.Verdict) bool {
-			return c.Cfg.V >= mach.MVP63 && isMismatch(class) && f.tSlowWaw.explains(v)
+			return c.Cfg.V >= mach.MVP63 && isMismatch(class) && f.tSlowWaw.explainsClass(class, v)
 		},
 	},
 	{
@@ -125,7 +125,7 @@ var triggers = []trigger{
 			if strings.HasPrefix(b, "panic:risc.(*Context).WriteMemory") || strings.HasPrefix(b, "panic:proc/mvp") && strings.Contains(b, "fetchCacheLine") {
 				return true
 			}
-			return isMismatch(class) && f.tWar.explains(v)
+			return isMismatch(class) && f.tWar.explainsClass(class, v)
 		},
 	},
 	{
@@ -134,7 +134,7 @@ var triggers = []trigger{
 		// same line issued to different cores can be performed out of order.
 		id: "KF-W9", props: wmProps,
 		match: func(c *core.Case, f *features, class string, v *core.Verdict) bool {
-			return c.Cfg.V >= mach.MVP70 && c.Cfg.Cores >= 2 && isMismatch(class) && f.tConflict.explains(v)
+			return c.Cfg.V >= mach.MVP70 && c.Cfg.Cores >= 2 && isMismatch(class) && f.tConflict.explainsClass(class, v)
 		},
 	},
 	{
@@ -149,7 +149,7 @@ var triggers = []trigger{
 				return false
 			}
 			if isMismatch(class) {
-				return f.tConflict.explains(v)
+				return f.tConflict.explainsClass(class, v)
 			}
 			return true
 		},
@@ -160,7 +160,7 @@ var triggers = []trigger{
 		// order (which back-pressure on the write bus scrambles) is left.
 		id: "KF-W11", props: wmProps,
 		match: func(c *core.Case, f *features, class string, v *core.Verdict) bool {
-			return c.Cfg.V >= mach.MVP63 && isMismatch(class) && f.tRing.explains(v)
+			return c.Cfg.V >= mach.MVP63 && isMismatch(class) && f.tRing.explainsClass(class, v)
 		},
 	},
 	{
@@ -170,7 +170,18 @@ var triggers = []trigger{
 		// register value.
 		id: "KF-T1", props: []string{"C12"},
 		match: func(c *core.Case, f *features, class string, v *core.Verdict) bool {
-			return (c.Cfg.V == mach.MVP71 || c.Cfg.V == mach.MVP80) && class == "value-dependent-cycles" && deadBaseValueDiffers(c)
+			return (c.Cfg.V == mach.MVP71 || c.Cfg.V == mach.MVP80) && baseClass(class) == "value-dependent-cycles" && deadBaseValueDiffers(c)
+		},
+	},
+	{
+		// MVP-6.1+: instructions behind a taken branch or a jump start executing
+		// before the redirect; a wrong-path load/store whose base register holds
+		// a data value, or a wrong-path branch on a data value, touches other
+		// lines / fetches other instructions: the cycle count depends on a value
+		// the executed path never uses as an address or a condition.
+		id: "KF-T2", props: []string{"C12"},
+		match: func(c *core.Case, f *features, class string, v *core.Verdict) bool {
+			return c.Cfg.V >= mach.MVP61 && baseClass(class) == "value-dependent-cycles" && wrongPathReadsDifferingValue(c)
 		},
 	},
 }
@@ -254,6 +265,21 @@ func matchTrigger(prop string, kf *findings.Set, c *core.Case, class string, v *
 // last 32 executed instructions before it (the final address is the same in
 // both runs; an address computed early from the not yet updated register is not).
 func deadBaseValueDiffers(c *core.Case) bool {
+	found := false
+	pairRegs(c, func(i int, st isa.Step, diffUntil *[isa.NumRegs]int) {
+		in := c.Prog.Insts[st.Idx]
+		if (in.Op.IsLoad() || in.Op.IsStore()) && i-diffUntil[in.Rs1] <= 32 {
+			found = true
+		}
+	})
+	return found
+}
+
+// pairRegs walks the two reference traces of the value-independence pair of c
+// and calls visit before each executed instruction with the number of the
+// step and, per register, the last step at which the two runs disagreed on it
+// (-1<<30: never).
+func pairRegs(c *core.Case, visit func(i int, st isa.Step, diffUntil *[isa.NumRegs]int)) bool {
 	ref := isa.Exec(c.Prog, c.Init, 20000, true)
 	if !ref.End.WellFormed() {
 		return false
@@ -262,14 +288,10 @@ func deadBaseValueDiffers(c *core.Case) bool {
 	if !ok {
 		return false
 	}
-	const window = 32
 	ra, rb := c.Init.Regs, s2.Regs
 	var diffUntil [isa.NumRegs]int
 	for r := range diffUntil {
 		diffUntil[r] = -1 << 30
-		if ra[r] != rb[r] {
-			diffUntil[r] = 0
-		}
 	}
 	for i := range ref.Trace {
 		a, b := ref.Trace[i], ref2.Trace[i]
@@ -279,9 +301,7 @@ func deadBaseValueDiffers(c *core.Case) bool {
 				diffUntil[r] = i
 			}
 		}
-		if (in.Op.IsLoad() || in.Op.IsStore()) && i-diffUntil[in.Rs1] <= window {
-			return true
-		}
+		visit(i, a, &diffUntil)
 		if a.WroteRd && in.Rd != isa.Zero {
 			ra[in.Rd] = a.Value
 		}
@@ -289,5 +309,38 @@ func deadBaseValueDiffers(c *core.Case) bool {
 			rb[in.Rd] = b.Value
 		}
 	}
-	return false
+	return true
+}
+
+// wrongPathReadsDifferingValue: the static shadow (8 instructions) of a taken
+// conditional branch or an executed jump holds a load/store, a branch or a
+// jalr that reads a register on which the two runs of the pair disagree
+// (within the last 32 executed instructions).
+func wrongPathReadsDifferingValue(c *core.Case) bool {
+	found := false
+	pairRegs(c, func(i int, st isa.Step, diffUntil *[isa.NumRegs]int) {
+		in := c.Prog.Insts[st.Idx]
+		if !(in.Op.IsCondBranch() && st.Taken || in.Op.IsJump()) {
+			return
+		}
+		for k := 1; k <= 8; k++ {
+			j := int(st.Idx) + k
+			if j >= len(c.Prog.Insts) {
+				break
+			}
+			sh := c.Prog.Insts[j]
+			if !(sh.Op.IsLoad() || sh.Op.IsStore() || sh.Op.IsCondBranch() || sh.Op == isa.JALR) {
+				continue
+			}
+			for _, r := range sh.Reads() {
+				if sh.Op.IsStore() && r == sh.Rs2 && r != sh.Rs1 {
+					continue // the stored data is not an address
+				}
+				if r != isa.Zero && i-diffUntil[r] <= 32 {
+					found = true
+				}
+			}
+		}
+	})
+	return found
 }
